@@ -403,17 +403,107 @@ Fixpoint run_outs (fx : bool) (x : sdb) (ops : list op) : list out :=
   | o :: ops' => let '(x', r) := step fx x o in r :: run_outs fx x' ops'
   end.
 
+(* ---------- call frames ----------
+   core/vm/evm.go Call/CallCode/DelegateCall/StaticCall/create:
+     snapshot := evm.StateDB.Snapshot(); ... body ...; if err != nil { evm.StateDB.RevertToSnapshot(snapshot) }
+   A frame body is a sequence of mutators and nested calls. *)
+Definition is_mut (o : op) : bool := match o with OSnapshot | ORevert _ => false | _ => true end.
+
+(* the one mutator call whose effect the journal of /repo does not fully record (finding F8):
+   Suicide of a live account whose storage-size counter is not zero *)
+Definition benign (fx : bool) (o : op) (m : mstate) : bool :=
+  match o with
+  | OSuicide a => fx || match live a (m_core m) with Some ob => Z.eqb (a_size ob) 0 | None => true end
+  | _ => true
+  end.
+
+Inductive frame := FOp (o : op) | FCall (body : list frame) (fails : bool).
+
+(* the boolean component stays true as long as every FOp is a mutator and is benign *)
+Fixpoint exec (fx : bool) (f : frame) (xb : sdb * bool) : sdb * bool :=
+  match f with
+  | FOp o => (fst (step fx (fst xb) o), snd xb && is_mut o && benign fx o (s_m (fst xb)))
+  | FCall body fails =>
+      let id := s_next (fst xb) in
+      let r := fold_left (fun acc g => exec fx g acc) body (fst (step fx (fst xb) OSnapshot), snd xb) in
+      if fails then (fst (step fx (fst r) (ORevert id)), snd r) else r
+  end.
+
 (* a StateDB between transactions: nothing to revert *)
 Definition fresh (c : core) (d : smap Z) (next : N) : sdb := mkSdb (mkM c d []) [] next 0 0.
 
 Definition empty_core : core := mkCore [] 0 [] 0 [] [] [] [].
 
+(* ---------- EVM layer: core/vm/evm.go (evmSnapshot, snapshot, revertToSnapshot, UndoCoinbasesDeleted)
+   and core/vm/contracts.go ClaimCoinbaseLockup ----------
+   The EVM keeps, beside the StateDB revision: ETXCache, CoinbaseDeletedHashes, the map CoinbasesDeleted
+   (key -> record bytes, the undo information) and EVM.Batch in which a claim stages the deletion of the
+   lockup record.  revertToSnapshot truncates the two lists and REPLACES the map by the copy taken at the
+   snapshot; it does not touch the batch (finding F9).  [fixd] = proposed repair: before replacing the
+   map, put back into the batch every record whose undo information is about to be dropped. *)
+Record evmst := mkEvm {
+  e_etxs : list N;                      (* ETXCache (ids) *)
+  e_hashes : list N;                    (* CoinbaseDeletedHashes *)
+  e_deleted : smap (list N);            (* CoinbasesDeleted *)
+  e_batch : smap (option (list N));     (* pending view of EVM.Batch: Some None = staged delete *)
+  e_db : smap (list N)                  (* database under the batch *)
+}.
+
+(* rawdb.ReadCoinbaseLockup(db, batch, ...) *)
+Definition lk_view (st : evmst) (k : key) : option (list N) :=
+  match get k (e_batch st) with
+  | Some None => None
+  | Some (Some v) => Some v
+  | None => get k (e_db st)
+  end.
+
+Inductive eframe :=
+| EClaim (k : key) (etx h : N)           (* CALL to the lockup contract, 53-byte input *)
+| EEmit (etx : N)                        (* opETX / CreateETX *)
+| ECall (body : list eframe) (fails : bool).
+
+Definition evm_restore (old new : smap (list N)) (b : smap (option (list N))) : smap (option (list N)) :=
+  fold_left (fun b kv => match get (fst kv) old with Some _ => b | None => put (fst kv) (Some (snd kv)) b end) new b.
+
+(* EVM.revertToSnapshot *)
+Definition evm_revert (fixd : bool) (snap st : evmst) : evmst :=
+  mkEvm (firstn (length (e_etxs snap)) (e_etxs st)) (firstn (length (e_hashes snap)) (e_hashes st))
+        (e_deleted snap)
+        (if fixd then evm_restore (e_deleted snap) (e_deleted st) (e_batch st) else e_batch st)
+        (e_db st).
+
+Fixpoint eexec (fixd : bool) (f : eframe) (st : evmst) : evmst :=
+  match f with
+  | EClaim k etx h =>
+      match lk_view st k with
+      | None => st                                      (* "no lockup to claim": the call errs, nothing staged *)
+      | Some v => mkEvm (e_etxs st ++ [etx]) (e_hashes st ++ [h]) (put k v (e_deleted st))
+                        (put k None (e_batch st)) (e_db st)
+      end
+  | EEmit etx => mkEvm (e_etxs st ++ [etx]) (e_hashes st) (e_deleted st) (e_batch st) (e_db st)
+  | ECall body fails =>
+      let st' := fold_left (fun a g => eexec fixd g a) body st in
+      if fails then evm_revert fixd st st' else st'
+  end.
+
+(* EVM.UndoCoinbasesDeleted (applyTransaction, failed result) *)
+Definition evm_undo (st : evmst) : evmst :=
+  mkEvm (e_etxs st) [] []
+        (fold_left (fun b kv => put (fst kv) (Some (snd kv)) b) (e_deleted st) (e_batch st)) (e_db st).
+
+(* batch.Write at the end of the block *)
+Definition evm_commit (st : evmst) : smap (list N) :=
+  fold_left (fun d kv => match snd kv with Some v => put (fst kv) v d | None => del (fst kv) d end) (e_batch st) (e_db st).
+
+(* one transaction = one top-level call; a failed result is followed by UndoCoinbasesDeleted *)
+Definition evm_tx (fixd : bool) (top : eframe) (st : evmst) : evmst :=
+  let st' := eexec fixd top st in
+  match top with ECall _ true => evm_undo st' | _ => st' end.
+
 (* ---------- well-formedness as a boolean (checked on every harness case) ---------- *)
 Definition wf_al_entryb (slots : list (smap unit)) (kv : key * Z) : bool :=
-  match snd kv with
-  | Zneg _ => true
-  | i => match nth_error slots (Z.to_nat i) with Some (_ :: _) => true | _ => false end
-  end.
+  if Z.ltb (snd kv) 0 then Z.eqb (snd kv) (-1)
+  else match nth_error slots (Z.to_nat (snd kv)) with Some (_ :: _) => true | _ => false end.
 
 Definition nzb (m : smap word) : bool := forallb (fun kv => negb (N.eqb (snd kv) 0)) m.
 
@@ -484,18 +574,39 @@ Definition out_eqb (a b : out) : bool :=
   | _, _ => false
   end.
 
-(* A case: id, initial journalled state (core, dirties, next revision id) observed on the real
+(* A StateDB case: id, initial journalled state (core, dirties, next revision id) observed on the real
    StateDB, the history with the observed result of each call, and the observed final state
    (journal and revisions relative to the start of the history). *)
-Definition case := (N * (core * smap Z * N) * list (op * out) * sdb)%type.
+Definition scase := (N * (core * smap Z * N) * list (op * out) * sdb)%type.
 
-Definition case_ok (c : case) : bool :=
+Definition scase_ok (c : scase) : bool :=
   let '(_, (c0, d0, n0), h, fin) := c in
   let x0 := fresh c0 d0 n0 in
   wf_coreb c0 && wf_dirtb d0
   && list_eqb out_eqb (run_outs false x0 (map fst h)) (map snd h)
   && sdb_eqb (run false x0 (map fst h)) fin.
 
-Definition case_id (c : case) : N := let '(i, _, _, _) := c in i.
+(* An EVM case: a transaction (top-level call tree) on a database holding one lockup record [k -> v];
+   observed: |ETXCache|, |CoinbaseDeletedHashes|, |CoinbasesDeleted| after the call, and whether the
+   record is still readable after UndoCoinbasesDeleted-if-failed and batch.Write. *)
+Inductive case :=
+| CS (c : scase)
+| CE (id : N) (k : key) (v : list N) (top : eframe) (n_etx n_hash n_del : N) (record_left : bool).
+
+Definition ecase_ok (k : key) (v : list N) (top : eframe) (n_etx n_hash n_del : N) (record_left : bool) : bool :=
+  let st0 := mkEvm [] [] [] [] [(k, v)] in
+  let st1 := eexec false top st0 in
+  N.eqb (N.of_nat (length (e_etxs st1))) n_etx && N.eqb (N.of_nat (length (e_hashes st1))) n_hash
+  && N.eqb (N.of_nat (length (e_deleted st1))) n_del
+  && Bool.eqb (match get k (evm_commit (evm_tx false top st0)) with Some _ => true | None => false end) record_left.
+
+Definition case_ok (c : case) : bool :=
+  match c with
+  | CS c => scase_ok c
+  | CE _ k v top a b d r => ecase_ok k v top a b d r
+  end.
+
+Definition case_id (c : case) : N :=
+  match c with CS (i, _, _, _) => i | CE i _ _ _ _ _ _ _ => i end.
 Definition mismatches (cs : list case) : list N :=
   map case_id (filter (fun c => negb (case_ok c)) cs).
